@@ -16,7 +16,8 @@ VAR_FLOOR = 1e-16
 def error_bound(n_rows: int, max_abs: float) -> float:
     """Absolute error bound of second-moment quantities computed from prefix sums."""
     m = max(float(max_abs), 1e-300)
-    return 32.0 * (n_rows + 1) ** 2 * EPS * m * m
+    # floor: for magnitudes below ~1e-140 the squares are subnormal or underflow, where relative error bounds mean nothing
+    return max(32.0 * (n_rows + 1) ** 2 * EPS * m * m, 1e-280)
 
 
 # --------------------------------------------------------------------------------------
